@@ -197,7 +197,7 @@ def _get(obj, path):
     return obj
 
 
-def minimise(mod, sc, key, budget_s=45, max_exec=1500):
+def minimise(mod, sc, key, budget_s=45, max_exec=1500, known=(), prop=None):
     """Clause-preserving reduction of the scenario: delete list elements
     (chunks first), then simplify scalars the property module names."""
     t0 = time.time()
@@ -211,7 +211,9 @@ def minimise(mod, sc, key, budget_s=45, max_exec=1500):
             r = mod.execute(c)
         except BaseException:
             return False
-        return any(vkey(v) == key for v in r.get('violations', []))
+        # the same clause must fail AND must not be explained by a known finding
+        return any(vkey(v) == key and not any(kf_match(k, prop, v, c) for k in known)
+                   for v in r.get('violations', []))
 
     cur = copy.deepcopy(sc)
     protect = set(getattr(mod, 'NO_SHRINK', ()))
@@ -381,12 +383,16 @@ def run_check(prop, tier, seed, n=None, jobs=None, budget_s=None, verbose=False)
         if kf['id'] in kf_hit:
             print('KNOWN-FINDING: property=%s %s' % (prop, kf['what']))
 
+    if len(groups) > 4 or os.environ.get('VERIF_LIST_SIGS'):
+        print('violation groups (clause, signature): count')
+        for key, items in sorted(groups.items()):
+            print('  %s | %s : %d (e.g. index %d)' % (key[0], key[1], len(items), items[0]['index']))
     rc = 0
     reported = []
     for key, items in sorted(groups.items())[:4]:
         item = items[0]
         sc_min, nexec = minimise(mod, item['scenario'], key,
-                                 budget_s=plan.get('min_budget_s', 40))
+                                 budget_s=plan.get('min_budget_s', 40), known=known, prop=prop)
         res = mod.execute(copy.deepcopy(sc_min))
         vs = [v for v in res.get('violations', []) if vkey(v) == key]
         if not vs:
